@@ -25,14 +25,14 @@ theorem gtrig_tail (s s' : S) (pc : TPc) (h : GTrig s) (hs : stepTail s pc = som
 theorem gtrig_closer (s s' : S) (pc : CPc) (h : GTrig s) (hs : stepCloser s pc = some s') : GTrig s' := by
   obtain ⟨t1, t2a, t2b, t2c, t3⟩ := h
   cases pc <;> simp only [stepCloser] at hs <;> (repeat' split at hs) <;> (try cases hs) <;>
-    constructor <;> simp_all [held]
+    constructor <;> simp_all [held, enterDrained] <;> grind
 
 theorem gtrig_step (s s' : S) (a : Act) (h : GTrig s) (hs : step s a = some s') : GTrig s' := by
   cases a with
   | add n =>
     obtain ⟨t1, t2a, t2b, t2c, t3⟩ := h
     simp only [step] at hs; cases hs
-    constructor <;> simp_all [held, tally_snoc, aBetw]
+    constructor <;> simp_all [held, tally_snoc]
   | close =>
     obtain ⟨t1, t2a, t2b, t2c, t3⟩ := h
     simp only [step] at hs; cases hs
